@@ -14,6 +14,7 @@ mod emit;
 mod gen;
 mod indep;
 mod repro;
+mod share;
 mod skinfile;
 mod walker;
 
@@ -806,6 +807,7 @@ fn build(name: &str, _arg: &str, tier: Tier) -> Box<dyn Space> {
         "m2" => Box::new(M2Space::new(tier.pick(2, 3), tier.pick(&[0][..], &[0, 4, 7][..]))),
         "m2conv" => Box::new(ConvSpace { models: enum_models(tier.pick(1, 2)), rotations: tier.pick(vec![0], vec![0, 4]) }),
         "seed" => Box::new(SeedSpace::new(tier)),
+        "share" => Box::new(share::ShareSpace::new(tier)),
         "skin" => Box::new(skinfile::SkinSpace::new(tier)),
         "anim" => Box::new(animfile::AnimSpace::new(tier)),
         _ => panic!("space {name}"),
@@ -877,7 +879,7 @@ fn main() {
     c.assume("object-API models follow the convention of parsed objects: texture file name count includes the NUL, a non-zero placeholder offset marks a named texture, vertex bone indices stay below the bone count, animation blocks of API-built records are empty (key frames enter only through parsed seeds)");
     c.assume("fields a version cannot store (bone name CRC < 260, camera id/flags < 264, ribbon slice/variation < 272, classic vs BC+ animation timing) are excluded from the comparison for that version / conversion pair");
     c.assume("seed files and the container walker follow the record layouts the property names (32/52-byte sequences, 108/112/88-byte bones, 28/20-byte animated values); /repo/docs describes a later layout for some records and is used for header order and M2Array semantics only");
-    for s in ["m2", "m2conv", "seed", "skin", "anim"] {
+    for s in ["m2", "m2conv", "seed", "share", "skin", "anim"] {
         c.run_space(s, "");
     }
     let mut sites = Map::new();
